@@ -509,26 +509,6 @@ Proof.
     intros _. left. lia.
 Qed.
 
-(* nesting depth: the new tree is no deeper than the old one, the new ilst sits at level 3 *)
-Hypothesis Hheight : mp4_forest_height atoms <= MP4_MAXDEPTH.
-Hypothesis Hith : mp4_height it <= 62.
-Lemma new_atoms_height : mp4_forest_height new_atoms <= MP4_MAXDEPTH.
-Proof.
-  unfold MP4_MAXDEPTH in *. rewrite Eatoms in Hheight. rewrite forest_height_app, forest_height_cons in Hheight.
-  rewrite (height_kids _ _ Kmoov), forest_height_app, forest_height_cons in Hheight.
-  rewrite (height_kids _ _ Kudta), forest_height_app, forest_height_cons in Hheight.
-  rewrite (height_kids _ _ Kmeta), !forest_height_app in Hheight.
-  unfold new_atoms, new_moov, new_udta, new_meta, new_ilst, new_free.
-  rewrite forest_height_app, forest_height_cons, height_node, forest_height_shift.
-  rewrite forest_height_app, forest_height_cons, height_node, forest_height_shift.
-  rewrite forest_height_app, forest_height_cons, height_node, forest_height_shift.
-  rewrite !forest_height_app, forest_height_shift. cbn [mp4_forest_height]. rewrite height_shift, height_leaf.
-  pose proof (forest_height_nonneg T1). pose proof (forest_height_nonneg T2). pose proof (forest_height_nonneg M1).
-  pose proof (forest_height_nonneg M2). pose proof (forest_height_nonneg U1). pose proof (forest_height_nonneg U2).
-  pose proof (forest_height_nonneg A). pose proof (forest_height_nonneg B). pose proof (forest_height_nonneg R).
-  pose proof (height_pos it). lia.
-Qed.
-
 (* a leaf atom outside the region that is not an offset table (mdat, ftyp, free ...): all its bytes are kept *)
 Lemma leaf_preserved L : In L (mp4_flat atoms) -> ma_kids L = None -> is_table_name L = false ->
   (ma_off L + ma_len L <= off \/ off + old <= ma_off L) ->
@@ -557,6 +537,32 @@ Proof.
     assert (HsL : s_lo (seg_of L) = ma_off L /\ s_hi (seg_of L) = ma_off L + ma_len L)
       by (unfold seg_of, s_lo, s_hi; rewrite KL; split; reflexivity).
     unfold clear_of. lia.
+Qed.
+
+(* nesting depth: the new tree is no deeper than the old one, the new ilst sits at level 3 *)
+Hypothesis Hheight : mp4_forest_height atoms <= MP4_MAXDEPTH.
+Hypothesis Hith : mp4_height it <= 62.
+Lemma new_atoms_height : mp4_forest_height new_atoms <= MP4_MAXDEPTH.
+Proof.
+  unfold MP4_MAXDEPTH in *. rewrite Eatoms in Hheight. rewrite forest_height_app, forest_height_cons in Hheight.
+  rewrite (height_kids _ _ Kmoov), forest_height_app, forest_height_cons in Hheight.
+  rewrite (height_kids _ _ Kudta), forest_height_app, forest_height_cons in Hheight.
+  rewrite (height_kids _ _ Kmeta), !forest_height_app in Hheight.
+  unfold new_atoms, new_moov, new_udta, new_meta, new_ilst, new_free.
+  rewrite forest_height_app, forest_height_cons, height_node, forest_height_shift.
+  rewrite forest_height_app, forest_height_cons, height_node, forest_height_shift.
+  rewrite forest_height_app, forest_height_cons, height_node, forest_height_shift.
+  rewrite !forest_height_app, forest_height_shift. cbn [mp4_forest_height]. rewrite height_shift, height_leaf.
+  pose proof (height_pos it) as P10.
+  remember (mp4_forest_height T1) as hT1 eqn:X1. remember (mp4_forest_height T2) as hT2 eqn:X2.
+  remember (mp4_forest_height M1) as hM1 eqn:X3. remember (mp4_forest_height M2) as hM2 eqn:X4.
+  remember (mp4_forest_height U1) as hU1 eqn:X5. remember (mp4_forest_height U2) as hU2 eqn:X6.
+  remember (mp4_forest_height A) as hA eqn:X7. remember (mp4_forest_height B) as hB eqn:X8.
+  remember (mp4_forest_height R) as hR eqn:X9. remember (mp4_height it) as hi eqn:X10.
+  pose proof Hheight as Hh. clear - Hh Hith P10.
+  repeat (rewrite Z.max_lub_iff in Hh || rewrite add_max_le in Hh || rewrite Z.add_assoc in Hh).
+  repeat (rewrite Z.max_lub_iff || rewrite add_max_le || rewrite Z.add_assoc).
+  lia.
 Qed.
 
 (* ================================================================== the result is well-formed in full (mp4_wf) *)
